@@ -418,7 +418,7 @@ pub fn generate_c10(corpus: &[Project], seed: u64, index: u64, k: usize) -> Run 
                 earlier.push(chosen.iter().map(|f| (f.clone(), doc_rewrite(&fs[f], round))).collect());
             }
         }
-        variants.push(Variant { hash_seed, preregister, repeat: i % 3 == 0, diag_first: i % 5 == 4, root: None, earlier });
+        variants.push(Variant { hash_seed, preregister, repeat: i % 3 == 0, diag_first: i % 5 == 4, root: None, earlier, verbose: i % 4 == 1 });
     }
     // one variant builds the same project checked out somewhere else
     if k >= 6 {
@@ -773,6 +773,17 @@ pub fn synthetic_project(seed: u64) -> Project {
         }
     }
     if rng.chance(1, 6) {
+        // one inline discriminated union spelled at two sites that carry different documentation
+        // (two union instances with one structural hash, neither variant a named type)
+        let u = ["{ kind: \"file\"; path: string } | { kind: \"url\"; href: string; ttl?: number }", "{ ok: true; value: number } | { ok: false; error: string }", "{ t: 1; a: string[] } | { t: 2; b: { c: boolean } } | { t: 3 }"][rng.below(3)];
+        extra_decls.push(format!("export type Job = {{\n  /** where the job reads from */\n  source: {};\n  retries: number;\n}};\nexport type Audit = {{\n  /** what was audited */\n  source: {};\n  by?: string;\n}};\nexport type Plain = {{ source: {} }};", u, u, u));
+        for k in ["Job: Job", "Audit: Audit", "Plain: Plain"] {
+            if rng.chance(3, 4) {
+                extra_keys.push(k.into());
+            }
+        }
+    }
+    if rng.chance(1, 6) {
         // two format chains that end in the same format name
         extra_decls.push("export type TwoChains = { viaParent: SfChild; viaOther: SfChildOfOther; n1?: NfChild; n2?: NfChildOfOther };\nexport type OtherChainOnly = { only: SfChildOfOther; num: NfChildOfOther[] };\nexport type ParentChainOnly = { only: SfChild | null; num?: NfChild };".into());
         extra_keys.push("TwoChains: TwoChains".into());
@@ -789,6 +800,12 @@ pub fn synthetic_project(seed: u64) -> Project {
         extra_decls.push(format!("export type constructor = {{ b: number; back?: {} }};\nexport type toString = {{ a: string; self?: toString }};\nexport type valueOf = {{ c: boolean }};\nexport type hasOwnProperty = valueOf | null;", a));
         extra_decls.push("export type UsesProtoNames = { x: constructor; y: toString; z: valueOf[]; w?: hasOwnProperty };".into());
         extra_keys.push("UsesProtoNames: UsesProtoNames".into());
+        if rng.chance(1, 2) {
+            // a parser whose print dies half-way, in the same module: what a context does after the
+            // rollback must not depend on whether such names were met before or after it
+            extra_decls.push(format!("export type DiesLate = {{ first: {}; then: Date; never?: valueOf }};", names[0]));
+            extra_keys.push("DiesLate: DiesLate".into());
+        }
         if rng.chance(1, 2) {
             extra_keys.push("PN: toString".into());
         }
